@@ -5,6 +5,7 @@ import QV.Generated.Tables
 import QV.Properties.C14
 import QV.Generated.Tsig
 import QV.Properties.C11
+import QV.Proofs.HmacLen
 import QV.Properties.C15
 import QV.Generated.Validation
 import QV.Properties.C06
